@@ -1,5 +1,63 @@
-/- C06 placeholder: theorems are added below as they are proved. -/
-import EtkVerif.Annot.Model
+/-
+C06 — Block annotations agree with instruction-by-instruction execution.
+
+For every basic block the annotator accepts, every environment `E`, every
+oracle `ω` for state-dependent reads ("the values those instructions actually
+received and returned": the node created by instruction `k` evaluates to `ω k`,
+which is what the concrete machine pushes at instruction `k`) and every entry
+stack at least as deep as the declared inputs:
+* execution does not underflow, and its final stack and control transfer
+  (kind, jump target, branch condition, fall-through offset) equal the
+  evaluation of the annotated outputs and exit with `var i` bound to the i-th
+  entry slot from the top (`C06_sound`);
+* the declared inputs are the deepest entry slot touched: on any shallower
+  stack execution underflows (`C06_inputs`);
+* offset, size and the jump-target flag describe the block (`C06_extent`);
+* every expression is well formed, so `Expr::walk` over its flat encoding
+  visits exactly the tree (`C06_wf`, `C06_walk`).
+Hypotheses: the table's sizes are the encoded lengths (from C17 for the
+regenerated table) and the block ends at or before 65536 (`pc as u16`).
+-/
+import EtkVerif.Annot.Lemmas
+import EtkVerif.Annot.Total
+import EtkVerif.Sym.Flat
 namespace EtkVerif.C06
-theorem C06_placeholder : True := trivial
+open Ops Annot Evm
+
+theorem C06_sound (t : OpTable) (b : Blocks.Block) (a : Annotated)
+    (h : annotate t b = .ok a) (hs : SizesOK t b.ops) (hpc : b.offset + b.byteLen ≤ 65536)
+    (E : Env) (ω : Nat → Word) (entry : List Word) (hd : a.inputs ≤ entry.length) :
+    ∃ o, execBlock E ω b.ops b.offset 0 entry = some o ∧ ExitAgrees E ω entry a o :=
+  annotate_sound t b a h hs hpc E ω entry hd
+
+theorem C06_inputs (t : OpTable) (b : Blocks.Block) (a : Annotated)
+    (h : annotate t b = .ok a) (E : Env) (ω : Nat → Word) (entry : List Word)
+    (hd : entry.length < a.inputs) :
+    execBlock E ω b.ops b.offset 0 entry = none :=
+  annotate_inputs_needed t b a h E ω entry hd
+
+theorem C06_extent (t : OpTable) (b : Blocks.Block) (a : Annotated) (h : annotate t b = .ok a) :
+    a.offset = b.offset ∧ a.size = b.size t ∧
+    a.jumpTarget = (b.ops.head?.map (fun i => (rowOf t i.op).jt)).getD false :=
+  annotate_extent t b a h
+
+theorem C06_wf (t : OpTable) (b : Blocks.Block) (a : Annotated) (h : annotate t b = .ok a) :
+    (∀ e ∈ a.outputs, e.wf = true) ∧
+    (match a.exit with
+     | .unconditional e => e.wf = true
+     | .branch c d _ => c.wf = true ∧ d.wf = true
+     | _ => True) :=
+  annotate_wf t b a h
+
+/-- `Expr::walk` over the flat prefix list of a well-formed tree visits exactly that
+tree (enter / between / exit events in tree order) and consumes exactly its symbols. -/
+theorem C06_walk (t : Tree) (h : t.wf = true) (rest : List Sym) :
+    Flat.innerWalk (t.flatten ++ rest) (t.size + 1) = some (Flat.events t, rest) :=
+  Flat.innerWalk_flatten t h rest
+
+-- non-vacuity: `push1 1; push1 2; add; swap1; jump` at offset 0 on entry stack [7]
+example : ∃ a, annotate Gen.cancun ⟨0, [⟨0x60, [1]⟩, ⟨0x60, [2]⟩, ⟨0x01, []⟩, ⟨0x90, []⟩, ⟨0x56, []⟩]⟩ = .ok a ∧
+    a.inputs = 1 := by
+  refine ⟨_, rfl, ?_⟩; decide
+
 end EtkVerif.C06
